@@ -729,6 +729,16 @@ func scnRoles(g *Gen, budget int, arg string) {
 			g.tx("UpdateOwner", newKV().set("from", hs(sp.owner)).set("new", hs(g.anyAcct())))
 		}
 		if arg == "lifecycle" {
+			// address-syntax matrix: every role update by the genuine owner with every kind of malformed or barely
+			// valid address (a valid one changes the role, so the owner is re-read each time)
+			if g.chance(0.5) {
+				for _, ty := range []string{"UpdateOwner", "UpdateAttesterManager", "UpdatePauser", "UpdateTokenController"} {
+					for _, w := range g.weirdAddresses() {
+						g.tx(ty, newKV().set("from", hs(g.role("owner"))).set("new", hs(w)))
+					}
+				}
+				g.tx("AcceptOwner", newKV().set("from", hs(g.role("pending"))))
+			}
 			for i := 0; i < 40 && g.nOps < budget; i++ {
 				switch g.pick(8) {
 				case 0, 1:
@@ -1490,5 +1500,78 @@ func scnWitness(g *Gen, budget int, arg string) {
 		_, kv := g.opDeposit(g.acct[1], "77", false)
 		g.tx("DepositForBurn", kv)
 		g.validReplace(true)
+	}
+}
+
+// ---------------------------------------------------------------------------------------------
+// bulk: registries with more entries than any default page size (the SDK's default limit is 100): export, import,
+// list queries without pagination parameters, and replays of used pairs that sort beyond the first hundred.
+
+func init() { scenarios["bulk"] = scnBulk }
+
+func scnBulk(g *Gen, budget int, arg string) {
+	for g.nOps < budget {
+		n := []int{101, 150, 257}[g.pick(3)]
+		which := g.pick(5) // the registry that is made big (the others get a few entries)
+		size := func(i int) int {
+			if i == which {
+				return n
+			}
+			return 1 + g.pick(3)
+		}
+		g.config()
+		sp := g.standardGenesis(2, 1)
+		for i := 0; i < size(0)-2; i++ {
+			sp.attesters = append(sp.attesters, hs(fmt.Sprintf("0x%064x%064x", i+1, g.rng.Uint64())))
+		}
+		sp.limits = nil
+		for i := 0; i < size(1); i++ {
+			sp.limits = append(sp.limits, hs(fmt.Sprintf("denom%d", i))+":"+fmt.Sprint(1+g.pick(1000)))
+		}
+		sp.limits = append(sp.limits, hs(mintDenom)+":1000000")
+		for i := 0; i < size(2); i++ {
+			sp.pairs = append(sp.pairs, fmt.Sprintf("%d:%x:%s", 7+g.pick(3), g.rand32(), hs(fmt.Sprintf("tok%d", i))))
+		}
+		seen := map[string]bool{}
+		for i := 0; i < size(3); i++ {
+			u := fmt.Sprintf("%d:%d", g.pick(2), g.pick(4*n))
+			if !seen[u] {
+				seen[u] = true
+				sp.used = append(sp.used, u)
+			}
+		}
+		for i := 0; i < size(4); i++ {
+			sp.messengers = append(sp.messengers, fmt.Sprintf("%d:%x", 100+i, g.rand32()))
+		}
+		g.emit(Op{Kind: "genesis-validate", KV: sp.kv()})
+		g.emit(Op{Kind: "genesis-init", KV: sp.kv()})
+		g.dump()
+		for _, q := range []string{"Attesters", "PerMessageBurnLimits", "TokenPairs", "UsedNonces", "RemoteTokenMessengers"} {
+			g.emit(Op{Kind: "query", Sub: q, KV: newKV()})
+			g.emit(Op{Kind: "query", Sub: q, KV: newKV().set("limit", fmt.Sprint(n+50)).set("countTotal", "1")})
+			g.emit(Op{Kind: "query", Sub: q, KV: newKV().set("offset", "99").set("limit", "5")})
+			g.emit(Op{Kind: "query", Sub: q, KV: newKV().set("reverse", "1").set("limit", "3")})
+		}
+		// used pairs at every position of the list must stay used: through a receive, a query, and an export/import
+		for k := 0; k < 6 && len(sp.used) > 0; k++ {
+			u := strings.Split(sp.used[g.pick(len(sp.used))], ":")
+			var d, nn uint64
+			fmt.Sscan(u[0], &d)
+			fmt.Sscan(u[1], &nn)
+			g.emit(Op{Kind: "query", Sub: "UsedNonce", KV: newKV().set("domain", u[0]).set("nonce", u[1])})
+			msg := g.inboundBurn(uint32(d), nn, big.NewInt(5), 0)
+			g.tx("ReceiveMessage", g.opReceive(g.anyAcct(), msg, attOpts{}))
+		}
+		g.exportAndReimport()
+		for k := 0; k < 6 && len(sp.used) > 0; k++ {
+			u := strings.Split(sp.used[g.pick(len(sp.used))], ":")
+			var d, nn uint64
+			fmt.Sscan(u[0], &d)
+			fmt.Sscan(u[1], &nn)
+			g.emit(Op{Kind: "query", Sub: "UsedNonce", KV: newKV().set("domain", u[0]).set("nonce", u[1])})
+			msg := g.inboundBurn(uint32(d), nn, big.NewInt(5), 0)
+			g.tx("ReceiveMessage", g.opReceive(g.anyAcct(), msg, attOpts{}))
+		}
+		g.dump()
 	}
 }
